@@ -10,6 +10,9 @@ Leg R: every enumerated (formula, variable tuple) goes through Formula.different
 Leg R (shadow alphabet): the same replay for the formulas over factors the formula does NOT report among its required variables -
        a column called like a transform (scale), a python factor (I(x1)), a quoted name (`my var`) - which the calculus treats like any other;
        TLC refutes the design error "required" (all terms 0 unless every variable is a required variable) on this family.
+Leg R (ordering modes): the same replay for the formulas built with _ordering="none" and _ordering="sort" (Formula(text, _ordering=...) and
+       SimpleFormula(terms, _ordering=...)): the mode decides the order of the formula's terms, the derivative is term-wise IN THAT ORDER,
+       compared position by position.  TLC refutes the design error "reordered" (the derivative is ordered anew by the formula's mode).
 Leg R (structured): formulas of up to 3 parts; every part is differentiated with respect to the same tuple and the structure is kept.
        One abstract sequence of parts is replayed through its realisations: `a ~ b`, `a | b`, keyword parts, lhs=/rhs=, and
        ModelSpecs.differentiate.  TLC refutes the design error "consumed" (the tuple is used up by the part visited first).
@@ -76,9 +79,12 @@ def replay_case(case):
 
     s = _source(case["terms"], case["icpt"])
     alphabet = case.get("alphabet", "plain")
+    ordering = case.get("ordering", "degree")
     bad = []
     try:
-        F = Formula(s)
+        F = Formula(s) if ordering == "degree" else Formula(s, _ordering=ordering)
+        if ordering != "degree":
+            s = f"Formula({s!r}, _ordering={ordering!r})"
         if _terms(F) != case["f"]:
             return [{"formula": s, "why": "setup: formula terms differ from the model", "observed": _terms(F), "expected": case["f"]}]
         D = F.differentiate(*case["wrt"])
@@ -94,6 +100,16 @@ def replay_case(case):
             step = F.differentiate(case["wrt"][0]).differentiate(case["wrt"][1])
             if _terms(step) != case["d"]:
                 bad.append({"formula": s, "wrt": case["wrt"], "why": "successive-differentiation-differs", "observed": _terms(step), "expected": case["d"]})
+        if ordering != "degree":
+            # the same formula built from its terms as written: SimpleFormula(terms, _ordering=...) puts them in the order of the mode
+            from formulaic.formula import SimpleFormula
+
+            G = SimpleFormula(list(Formula(_source(case["terms"], case["icpt"]), _ordering="none")), _ordering=ordering)
+            if _terms(G) != case["f"]:
+                bad.append({"formula": s, "why": "setup: SimpleFormula(terms, _ordering) differs from the model", "observed": _terms(G), "expected": case["f"]})
+            elif _terms(G.differentiate(*case["wrt"])) != case["d"]:
+                bad.append({"formula": s, "wrt": case["wrt"], "why": "derivative-terms-of-SimpleFormula(terms, _ordering)-differ (term i of the derivative belongs to term i of the formula)",
+                            "observed": _terms(G.differentiate(*case["wrt"])), "expected": case["d"]})
         if case["wrt"] and len(F) >= 2:
             from formulaic.formula import SimpleFormula
 
@@ -247,7 +263,7 @@ def replay_structured(case):
 
 def run(ctx: Ctx) -> None:
     global MATERIALISE_MOD
-    ctx.rule = ("every formula of <= MaxTerms distinct terms over {x1,yy,z,w} (each optionally scaled by the literal 2, with or without intercept) x "
+    ctx.rule = ("every formula of <= MaxTerms distinct terms over {x1,yy,z,w} (each optionally scaled by the literal 2, with or without intercept; built with each ordering mode degree/none/sort - the modes none and sort with <= 1 variable in the quick tier) x "
                 "every tuple of <= 2 differentiation variables from {x1,yy,z,w,v0}; the same over the factors {scale, I(x1), `my var`} (unscaled) and {C}; "
                 "every structured formula of <= 3 parts (<= 3 terms in all, quick) over {x1, scale} x every tuple of <= 2 variables from {x1,scale,v0}, in four spellings; "
                 "non-trivial = some derivative term is neither 0 nor 1 (structured: a part after the first has a non-zero derivative term)")
@@ -257,8 +273,9 @@ def run(ctx: Ctx) -> None:
     out = workdir("c20") / "cases.ndjson"
     out.unlink(missing_ok=True)
 
-    def cfg_of(mt, alphabet, mp, variant):
+    def cfg_of(mt, alphabet, mp, variant, ordering="degree", maxwrt=2):
         return (f"SPECIFICATION Spec\nCONSTANTS\n  MaxTerms = {mt}\n  Emit = TRUE\n  Alphabet = \"{alphabet}\"\n  MaxParts = {mp}\n  Variant = \"{variant}\"\n"
+                f"  Ordering = \"{ordering}\"\n  MaxWrt = {maxwrt}\n"
                 "INVARIANT Laws\nINVARIANT EmitCase\n")
 
     r = run_tlc("MC_Calculus", cfg_of(maxterms, "plain", 1, "spec"), tag="c20", env={"OUT_FILE": str(out)}, timeout=3400)
@@ -280,11 +297,11 @@ def run(ctx: Ctx) -> None:
         ctx.sample({"terms": c["f"], "wrt": c["wrt"], "derivative": c["d"], "columns": c["cols"]})
     out.unlink()
 
-    def family(alphabet, mt, mp, what):
+    def family(alphabet, mt, mp, what, ordering="degree", maxwrt=2):
         out.unlink(missing_ok=True)
-        r = run_tlc("MC_Calculus", cfg_of(mt, alphabet, mp, "spec"), tag="c20", env={"OUT_FILE": str(out)}, timeout=3400)
+        r = run_tlc("MC_Calculus", cfg_of(mt, alphabet, mp, "spec", ordering, maxwrt), tag="c20", env={"OUT_FILE": str(out)}, timeout=3400)
         if r.violated:
-            ctx.model_violation(r, f"MC_Calculus ({alphabet})")
+            ctx.model_violation(r, f"MC_Calculus ({alphabet}, ordering {ordering})")
         ctx.add_tlc(r, what)
         cs = read_emitted(out)
         out.unlink()
@@ -294,11 +311,11 @@ def run(ctx: Ctx) -> None:
             c["alphabet"] = alphabet
         return cs
 
-    def refuted(alphabet, mt, mp, variant, why):
-        v = run_tlc("MC_Calculus", cfg_of(mt, alphabet, mp, variant).replace("Emit = TRUE", "Emit = FALSE"), tag="c20", timeout=3400)
+    def refuted(alphabet, mt, mp, variant, why, ordering="degree"):
+        v = run_tlc("MC_Calculus", cfg_of(mt, alphabet, mp, variant, ordering).replace("Emit = TRUE", "Emit = FALSE"), tag="c20", timeout=3400)
         if "Laws" not in v.violated:
             raise MachineryError(f"MC_Calculus: the design error {variant!r} does not violate Laws on the {alphabet!r} family - {why}")
-        ctx.notes.setdefault("design_errors_refuted", []).append(f"{variant} ({alphabet} alphabet)")
+        ctx.notes.setdefault("design_errors_refuted", []).append(f"{variant} ({alphabet} alphabet" + (f", ordering {ordering})" if ordering != "degree" else ")"))
 
     # factors the formula does not report as required variables (a column called like a transform, a python factor, a quoted name):
     # to the calculus they are factors like any other.  The family must tell the fast path over required_variables from the calculus.
@@ -312,6 +329,22 @@ def run(ctx: Ctx) -> None:
             ctx.nontrivial.add(jhash(["shadow", c["terms"], c["wrt"], c["icpt"]]))
         for b in bad:
             ctx.violation({"formula": b["formula"], "wrt": b.get("wrt")}, b, kind="replay")
+    # the ordering mode of the formula: the derivative is term-wise in the formula's own order, whatever the mode
+    owrt = 1 if ctx.quick else 2
+    for mode in ("none", "sort"):
+        ordered = family("plain", maxterms, 1, f"the laws + emission for the formulas built with _ordering={mode!r}; <= {maxterms} terms, <= {owrt} differentiation variables",
+                         ordering=mode, maxwrt=owrt)
+        if any(c.get("ordering") != mode for c in ordered):
+            raise MachineryError(f"the cases of the ordering family {mode!r} do not carry the mode")
+        res = pmap("harness.props.c20", "replay_case", ordered, chunk=400)
+        for c, bad in zip(ordered, res):
+            ctx.traces += 1
+            ctx.evaluations += 1
+            if any(d not in (["0"], ["1"]) for d in c["d"]):
+                ctx.nontrivial.add(jhash(["ordering", mode, c["terms"], c["wrt"], c["icpt"]]))
+            for b in bad:
+                ctx.violation({"formula": b["formula"], "wrt": b.get("wrt")}, b, kind="replay")
+    refuted("plain", 2, 1, "reordered", "no formula of the family has a derivative out of the order of its mode", ordering="sort")
     # structured formulas: the parts are differentiated independently, each with respect to the whole tuple
     sterms, sparts = (3, 3) if ctx.quick else (4, 3)
     structured = family("pair", sterms, sparts, f"the laws of every part + emission; structured formulas of <= {sparts} parts, <= {sterms} terms in all, over {{x1, scale}}")
@@ -335,7 +368,7 @@ def replay(path: str) -> int:
     rec = json.load(open(path))
     c = rec["case"]
     src = c["formula"].split(" (+ ")[0]
-    F = eval(src, {"Formula": Formula}) if src.startswith("Formula(") else Formula(src)    # the keyword spellings of a structured formula are written as the call
+    F = eval(src, {"Formula": Formula}) if src.startswith("Formula(") else Formula(src)    # the keyword spellings of a structured formula / an ordering mode are written as the call
     print(c["formula"], c["wrt"], "->", _sig(F.differentiate(*(c["wrt"] or []))))
     print("detail:", rec["detail"])
     return 0
